@@ -43,6 +43,33 @@ def abandon_scenario(viol, known_hit, stats):
         pr.destroy()
 
 
+def failfast_scenario(viol, stats):
+    """Without -k, a failure is noticed while another job of the same invocation is still running and more targets
+    are waiting for a token: the invocation must keep the running job's lock until its result is recorded; a second
+    invocation asks for that target meanwhile."""
+    for j, extra in ((2, 6), (3, 8)):
+        pr = Project()
+        try:
+            pr.write("slow.do", 'echo "B $$ slow $(date +%s%N)" >>"$VERIF_WORK"; sleep 0.9; echo "E $$ slow $(date +%s%N)" >>"$VERIF_WORK"; echo slow\n')
+            pr.write("bad.do", "sleep 0.15; exit 3\n")
+            names = ["e%d" % i for i in range(extra)]
+            for n in names:
+                pr.write(n + ".do", "echo %s\n" % n)
+            rs = sched.run_cmds(pr, [["redo", "-j%d" % j, "--no-log", "slow", "bad"] + names, ["redo", "slow"]], timeout=30, stagger=0.45)
+            time.sleep(0.3)
+            stats["runs"] += 1
+            ans, ev = sched.replay_locks(rs[0].trace)
+            over, counts = sched.target_overlaps(sched.parse_work(pr.path(".verif-work")))
+            left = [f for f in os.listdir(pr.root) if f.endswith(".redo.tmp")]
+            if (not ans.startswith("ok")) or over or left or any(r.timed_out for r in rs):
+                p = write_replay("C06", "failfast-j%d" % j, dict(kind="trace-rejected+impl-monitor", answer=ans, events=ev, overlaps=over, tmp_left=left,
+                                                                 commands=["redo -j%d --no-log slow bad %s" % (j, " ".join(names)), "redo slow (0.45 s later)"], stderr=[r.err[-800:] for r in rs]))
+                viol.append(Violation("C06", p, "a failing sibling at -j%d while `slow` runs, second `redo slow` meanwhile: model: %s; overlapping executions: %r; temp files left: %r" % (j, ans[:160], over, left)))
+                return
+        finally:
+            pr.destroy()
+
+
 def run(ctx):
     rng = random.Random(ctx["seed"] * 19 + 6)
     viol = ctx.setdefault("violations", [])
@@ -96,6 +123,8 @@ def run(ctx):
             pr.destroy()
     if not viol:
         abandon_scenario(viol, known_hit, stats)
+    if not viol:
+        failfast_scenario(viol, stats)
     return dict(evaluations=stats["events"], distinct_nontrivial=stats["runs"],
-                rule="seeded random graphs (3-9 targets; failing, checksummed, always targets) built by 1-3 simultaneously started invocations (redo -j1..3 [-k], redo-ifchange of the whole graph or one target) with start offsets 0-150 ms; every lock/job event replayed by the Lean acceptor; scripts record their own begin/end for the overlap monitor; plus the error-while-jobs-run scenario; distinct = runs",
+                rule="seeded random graphs (3-9 targets; failing, checksummed, always targets) built by 1-3 simultaneously started invocations (redo -j1..3 [-k], redo-ifchange of the whole graph or one target) with start offsets 0-150 ms; every lock/job event replayed by the Lean acceptor; scripts record their own begin/end for the overlap monitor; plus the error-while-jobs-run scenario and the failing-sibling-while-a-job-runs scenario (second invocation asks for the running target); distinct = runs",
                 samples=samples, traces_validated_against_impl=stats["runs"], disagreements_checked=stats["events"], distribution=stats, known_hit=known_hit)
